@@ -558,7 +558,14 @@ func (s *sched) processHelper(tid int, h *schedHelper) (string, []int) {
 }
 
 // run executes the choices, then drains with a fixed policy; returns the log line
+// after this many missed arrival deadlines in one process the remaining scheduler cases are not
+// run at all (they are reported as not judged): the hang is established, with replays
+const schedGiveUp = 12
+
 func (s *sched) run(choices []int, drainBound int) string {
+	if schedTimeouts.Load() >= schedGiveUp {
+		return "TIMEOUT-SKIP"
+	}
 	step := func(label string, en []string) bool {
 		obs := s.do(label)
 		s.log = append(s.log, fmt.Sprintf("{%s}%s=%s", strings.Join(en, ","), label, obs))
@@ -600,6 +607,9 @@ func (s *sched) run(choices []int, drainBound int) string {
 // has not been seen to park again since the last segment that returned; stop when only such
 // re-parking resumes are left.
 func (s *sched) runPP(choices []int, drainBound int) string {
+	if schedTimeouts.Load() >= schedGiveUp {
+		return "TIMEOUT-SKIP"
+	}
 	step := func(label string, en []string) (string, bool) {
 		obs := s.do(label)
 		s.log = append(s.log, fmt.Sprintf("{%s}%s=%s", strings.Join(en, ","), label, obs))
